@@ -448,6 +448,15 @@ func parseDirective(c *Contract, line, path string, lineNo int, sp *Specs) error
 		c.PanicOK = true
 	case "logs":
 		c.Logs = append(c.Logs, fields[1:]...)
+	case "key":
+		delete(sp.Funcs, c.Key)
+		for i, k := range sp.Order {
+			if k == c.Key {
+				sp.Order[i] = fields[1]
+			}
+		}
+		c.Key = fields[1]
+		sp.Funcs[c.Key] = c
 	case "propagates":
 		c.Propagates = append(c.Propagates, fields[1:]...)
 	case "refines":
